@@ -34,6 +34,13 @@ SawEOF(evs)  == \E k \in 1..Len(evs) : evs[k][2] = 0 /\ evs[k][1] > 0
 SawShortEOF(c, evs, u) == \E k \in 1..Len(evs) : evs[k][2] = 0 /\ evs[k][1] > 0 /\ UBefore(evs, u, k) < c.limit
 ZeroEvents(evs) == Cardinality({k \in 1..Len(evs) : evs[k][2] <= 0})
 
+\* longest run of consecutive underlying calls that delivered nothing (no progress)
+RECURSIVE ZeroRun(_, _, _)
+ZeroRun(evs, cur, best) ==
+  IF evs = <<>> THEN Max2(cur, best)
+  ELSE IF Head(evs)[2] <= 0 THEN ZeroRun(Tail(evs), cur + 1, best)
+  ELSE ZeroRun(Tail(evs), 0, Max2(cur, best))
+
 IsRaw(c) == c.wrapper = "raw"
 
 \* Documented subclass hooks (scenario parameters, absent = the defaults of LimitedStream):
@@ -129,7 +136,9 @@ OpVerdict(c, st, ln) ==
       B   == IF ln.rk = "bytes" THEN ln.rb ELSE <<>>
       nB  == Len(B)
   IN
-  IF SawHang(evs) \/ ln.rx = "HangGuard" \/ ZeroEvents(evs) > 4 THEN "StepBound"
+  \* every call returns after finitely many underlying reads: at most 4 that deliver nothing (with a
+  \* quiet on_disconnect hook OSErrors do not end the call, so: at most 4 in a row)
+  IF SawHang(evs) \/ ln.rx = "HangGuard" \/ (~Dq(c) /\ ZeroEvents(evs) > 4) \/ ZeroRun(evs, 0, 0) > 4 THEN "StepBound"
   ELSE IF OverRequest(c, evs, u0) \/ u1 > c.limit THEN "NoOverRead"
   ELSE IF ~isB THEN
        IF ln.rk = "exc" /\ ln.rx = CD THEN
